@@ -125,8 +125,9 @@ SECPTR = {
     'loclistsptr': ('DebugLocListsBase', 'DebugLocListsBase', [0x8c]),                          # loclists_base
 }
 # attributes with class exprloc in table 7.5 (DWARF 2/3 producers encode these expressions as DW_FORM_block*)
+# (0x7f DW_AT_call_origin: table 7.5 of DWARF 5 lists class exprloc, although section 3.4.1 describes a reference)
 EXPRLOC_NAMES = [0x02, 0x0b, 0x0c, 0x0d, 0x19, 0x22, 0x2a, 0x2e, 0x2f, 0x37, 0x38, 0x40, 0x46, 0x48, 0x4a, 0x4d, 0x4e, 0x4f,
-                 0x50, 0x51, 0x71, 0x7e, 0x83, 0x84, 0x85, 0x86]
+                 0x50, 0x51, 0x71, 0x7e, 0x7f, 0x83, 0x84, 0x85, 0x86]
 # enumerated constant attributes: name -> (variant, dw type, max of the constant's storage type)
 ENUM_NAMES = [(0x09, 'Ordering', 'DwOrd', 0xff), (0x13, 'Language', 'DwLang', 0xffff), (0x17, 'Visibility', 'DwVis', 0xff),
               (0x20, 'Inline', 'DwInl', 0xff), (0x32, 'Accessibility', 'DwAccess', 0xff),
@@ -414,12 +415,19 @@ def derived_eq(ty):
             f'    open spec fn eq_spec(&self, other: &{ty}) -> bool {{ *self == *other }}\n}}')
 
 
+SIGN_BV = 'proof { ' + ' '.join(
+    f'assert(forall|d: u{w}| d >= {1 << (w - 1):#x} ==> #[trigger] (d as i{w}) as int == d as int - {1 << w:#x}) by (bit_vector); '
+    f'assert(forall|d: u{w}| d < {1 << (w - 1):#x} ==> #[trigger] (d as i{w}) as int == d as int) by (bit_vector);'
+    for w in (8, 16, 32, 64)) + ' }'
+
+
 def value_fn_contracts(it, V, off):
     """contracts of the *_value accessors, on AttributeValue (V = *self) and on Attribute (V = self.sval())"""
     it.splice('udata_value', ret='res', ensures=[
         f'[C03:udata-value] (res matches Some(x) ==> unum({V}) == Some(x as int)) && (res is None ==> unum({V}) is None)'])
     it.splice('sdata_value', ret='res', ensures=[
-        f'[C03:sdata-value] (res matches Some(x) ==> snum({V}) == Some(x as int)) && (res is None ==> snum({V}) is None)'])
+        f'[C03:sdata-value] (res matches Some(x) ==> snum({V}) == Some(x as int)) && (res is None ==> snum({V}) is None)'],
+        before=[('Some(match *self {', SIGN_BV)] if V == '*self' else None)
     it.splice('u8_value', ret='res', ensures=[
         f'[C03:u8-value] (res matches Some(x) ==> unum({V}) == Some(x as int)) && (res is None ==> (unum({V}) matches Some(v) ==> v > 0xff))'])
     it.splice('u16_value', ret='res', ensures=[
@@ -511,6 +519,11 @@ use crate::aspec::*;''')
     avi.clean(offset=False)
     avi.own(OWN)
     value_fn_contracts(avi, SV, 'Offset')
+    # closure contracts: Verus does not infer the postcondition of a closure; the annotation is inserted (ghost) text
+    for k, (ty, mx) in enumerate([('u8', '0xff'), ('u16', '0xffff')]):
+        avi.insert_after('and_then(|val', ': u64', nth=k)
+        avi.insert_before(f'{ty}::try_from(val).ok()', f'-> (o: Option<{ty}>) ensures (o matches Some(x) ==> x as u64 == val) && (o is None ==> val > {mx}) {{ ')
+        avi.insert_after(f'{ty}::try_from(val).ok()', ' }')
     sk.add('read::unit', avi)
 
     ati = un.item(r'^impl<R: Reader> Attribute<R> \{', label='Attribute')
